@@ -273,7 +273,7 @@ pub fn oracle_steps(msgs: &[StepRef]) -> Result<(), (String, String)> {
 
 /// Residue probes: 1059 messages whose encoding has exactly L payload bytes and a single data bit in the last byte
 /// (7 padding bits), for every L that the layout 67 + 11*sats + 19*biases can reach. Built through the public API.
-fn residue_probes() -> Vec<(usize, Message, Vec<u8>)> {
+pub fn residue_probes() -> Vec<(usize, Message, Vec<u8>)> {
     use crate::biasmsg::BiasMsg;
     use crate::checks::c16::{make_message, Entry};
     let sigs = BiasMsg::M1059.signals();
